@@ -24,6 +24,7 @@ def make_cases(progs_path, cases_path, inputs, extra=None, trace=False):
     return n
 
 
+SEPS = [" ; ", "\n\n", "\n\t\n", " \n \n ", ";"]
 LIST4 = {"t": "list", "v": [{"t": "int", "v": 10}, {"t": "int", "v": 20}, {"t": "pair", "l": {"t": "sym", "n": "a"}, "r": {"t": "int", "v": 30}}, {"t": "int", "v": 40}]}
 NESTED = {"t": "list", "v": [{"t": "pair", "l": {"t": "sym", "n": "a"}, "r": {"t": "list", "v": [{"t": "pair", "l": {"t": "sym", "n": "b"}, "r": {"t": "int", "v": 1}}, {"t": "int", "v": 7},
                                 {"t": "pair", "l": {"t": "sym", "n": "a"}, "r": {"t": "list", "v": [{"t": "int", "v": 9}]}}]}},
@@ -36,7 +37,8 @@ FOCUSED_QUICK = [("MC_Programs_calls6", [None, {"t": "int", "v": 5}]),
                  ("MC_Programs_slices7", [LIST4]),
                  ("MC_Programs_partial5", [{"t": "int", "v": 5}]),
                  ("MC_Programs_casts7q", [LIST4]),
-                 ("MC_Programs_paths5", [NESTED])]
+                 ("MC_Programs_paths5", [NESTED]),
+                 ("MC_Programs_logic5", [{"t": "int", "v": 5}])]
 FOCUSED_THOROUGH = [("MC_Programs_calls8", [None, {"t": "int", "v": 5}]),
                     ("MC_Programs_conds6", [None, {"t": "int", "v": 5}, progs.INPUTS[3]]),
                     ("MC_Programs_chains7", [None, {"t": "int", "v": 5}]),
@@ -45,7 +47,7 @@ FOCUSED_THOROUGH = [("MC_Programs_calls8", [None, {"t": "int", "v": 5}]),
                     ("MC_Programs_seqs5", [None, {"t": "int", "v": 1}]),
                     ("MC_Programs_slices7w", [LIST4]),
                     ("MC_Programs_partial6", [None, {"t": "int", "v": 5}]),
-                    ("MC_Programs_casts6", [None, LIST4]), ("MC_Programs_casts7", [LIST4]), ("MC_Programs_paths6", [NESTED, LIST4])]
+                    ("MC_Programs_casts6", [None, LIST4]), ("MC_Programs_casts7", [LIST4]), ("MC_Programs_paths6", [NESTED, LIST4]), ("MC_Programs_logic5", [None, {"t": "int", "v": 5}, {"t": "false"}])]
 
 
 def corpus(out, tier, seed, wd, trace=False, extra=None, light=False):
@@ -66,10 +68,11 @@ def corpus(out, tier, seed, wd, trace=False, extra=None, light=False):
                     kept += 1
             nprogs += kept
             parts.append("%s=%d" % (cfg, kept) if only is None else "%s=%d of %d" % (cfg, kept, n))
-            for p in vlib.read_ndjson(pp):
+            for k, p in enumerate(vlib.read_ndjson(pp)):
                 if only is not None and not only(p["ast"]):
                     continue
-                src = progs.render(p["toks"])
+                # a sequence is written with `;` or with a blank line (which may hold blanks or a tab): rotate through the spellings
+                src = progs.render(p["toks"], sep=SEPS[k % len(SEPS)] if "seq" in p["ast"] else " ; ")
                 for inp in inputs:
                     c = {"src": src, "ast": p["ast"], "trace": trace}
                     if inp is not None:
@@ -84,6 +87,7 @@ def corpus(out, tier, seed, wd, trace=False, extra=None, light=False):
             add("MC_Programs_conds5", [None])
             add("MC_Programs_chains7", [progs.INPUTS[1]])
             add("MC_Programs_seqs4", [progs.INPUTS[1]])
+            add("MC_Programs_logic4", [progs.INPUTS[1]])
             add("MC_Programs_paths5", [NESTED], only=lambda a: "app" in a and "acc" in a and ("syma" in a or "symb" in a))      # path accesses
             add("MC_Programs_sim", [progs.INPUTS[3]], simulate=150, depth=14, seed=seed, min_nodes=5, cap=500)
         elif tier == "quick":
